@@ -36,14 +36,44 @@ def gen_case(rng):
     dist = rng.choice(['empty', 'single', 'sparse', 'lognormal', 'huge-range', 'uniform', 'ones'])
     gro = rng.choice(['1/R', '1/R', 'signchange', 'zeros', 'allneg', 'allpos', 'random', 'some-zero',
                       'split-in-populated', 'split-in-populated', '1/R-in-populated'])
-    nuc = rng.choice(['inside', 'inside', 'inside', 'on-boundary', 'below', 'above', 'zero-rate'])
+    # 'boundary': radius exactly on / one ulp below / one ulp above the first, an interior or the last class boundary;
+    # 'special': 0 (equal to the first boundary on a grid that starts at R = 0: KWNBase passes Rnuc = 0 while nucleation
+    # is insignificant), negative, +inf, -inf
+    nuc = rng.choice(['inside', 'inside', 'inside', 'on-boundary', 'below', 'above', 'zero-rate', 'boundary', 'boundary', 'special'])
     hist = rng.choice(['fresh', 'fresh', 'fresh', 'remesh', 'add', 'revert', 'recorded', 'recorded-load'])
     return dict(n=n, cmin=cmin, cmax=cmax, dist=dist, gro=gro, nuc=nuc, hist=hist,
                 s=rng.getrandbits(32), dtmul=10 ** rng.uniform(-3, 1), ratio=rng.choice([0.4, 0.4, 0.5, 0.25, 0.1]),
                 maxdiss=rng.choice([1e-3, 0.01, 0.1, 0.0]),
                 # 'drain': dt is a multiple of the time in which the fastest two-sided class would empty (classes below the
                 # dissolution index / caller-chosen dt are not covered by getDTEuler), so the class-wise third pass is active
-                dtkind=rng.choice(['limit', 'limit', 'drain']), dmult=10 ** rng.uniform(-0.5, 2.5))
+                dtkind=rng.choice(['limit', 'limit', 'drain']), dmult=10 ** rng.uniform(-0.5, 2.5),
+                nucpos=rng.choice(NUC_POS), nucoff=rng.choice(NUC_OFF), nucspecial=rng.choice(NUC_SPECIAL),
+                cmin0=rng.random() < 0.12)     # grid starting at R = 0 (setAxes provides for it)
+
+
+NUC_POS = ['first', 'interior', 'last']
+NUC_OFF = ['exact', 'ulp-below', 'ulp-above']
+NUC_SPECIAL = ['zero', 'zero', 'negative', 'inf', '-inf']
+GEN_KEYS = ['n', 'cmin', 'cmax', 'dist', 'gro', 'nuc', 'hist', 's', 'dtmul', 'ratio', 'maxdiss', 'dtkind', 'dmult',
+            'nucpos', 'nucoff', 'nucspecial', 'cmin0']
+
+
+def boundary_sweep(rng, ngrids):
+    """systematic part: for each of `ngrids` random grids (1, 2, 3, ... 300 classes, every third one starting at R = 0,
+    random grid history / distribution / growth field / dt) ALL nine boundary-exact radii (first | interior | last boundary
+    x exact | one ulp below | one ulp above) and the special radii 0, negative, +inf, -inf; every case runs through the
+    same oracles and the same model correspondence as the random cases"""
+    out = []
+    for g in range(ngrids):
+        c = gen_case(rng)
+        c['n'] = [1, 2, 3, rng.randint(4, 12), rng.randint(13, 80), rng.randint(81, 300)][g % 6]
+        c['cmin0'] = (g % 3 == 1)
+        for pos in NUC_POS:
+            for off in NUC_OFF:
+                out.append(dict(c, nuc='boundary', nucpos=pos, nucoff=off, sweep=g))
+        for sp in ('zero', 'negative', 'inf', '-inf'):
+            out.append(dict(c, nuc='special', nucspecial=sp, sweep=g))
+    return out
 
 
 def build(case):
@@ -51,22 +81,28 @@ def build(case):
     from kawin.precipitation.PopulationBalance import PopulationBalanceModel
     r = np.random.default_rng(case['s'])
     n = case.setdefault('n0', case['n'])     # requested number of classes (case['n'] becomes the number after the grid history)
-    pbm = PopulationBalanceModel(cMin=case['cmin'], cMax=case['cmax'], bins=n, minBins=max(1, n // 2), maxBins=3 * n + 40)
+    cmin = 0.0 if case.get('cmin0') else case['cmin']
+    pbm = PopulationBalanceModel(cMin=cmin, cMax=case['cmax'], bins=n, minBins=max(1, n // 2), maxBins=3 * n + 40)
     # the transport functions must work on whatever grid the object currently holds: reach the grid through public
     # grid operations as well (re-mesh, extension, backup/revert, restoring a recorded distribution), not only by construction
     h = case.get('hist', 'fresh')
+    if cmin == 0.0 and h in ('recorded', 'recorded-load'):
+        # restoring a recorded distribution on a grid that starts at R = 0 loses the last class / raises on the unchanged
+        # code (_grabPSDfromIndex counts the NON-ZERO recorded boundaries; grid operation = C08, reported to the coordinator):
+        # not combined here, the zero-start grid is reached by re-meshing instead
+        h = case['hist'] = 'remesh'; case['hist_requested'] = 'recorded-skipped-on-grid-from-0'
     if h == 'remesh':
-        pbm.changeSizeClasses(case['cmin'] * r.uniform(0.5, 2), case['cmax'] * r.uniform(0.5, 3), max(1, int(n * r.uniform(0.4, 2.0))))
+        pbm.changeSizeClasses(cmin * r.uniform(0.5, 2), case['cmax'] * r.uniform(0.5, 3), max(1, int(n * r.uniform(0.4, 2.0))))
     elif h == 'add':
         pbm.addSizeClasses(int(r.integers(1, 20)))
     elif h == 'revert':
         pbm.createBackup()
-        pbm.changeSizeClasses(case['cmin'], case['cmax'] * 4, max(1, n // 2))
+        pbm.changeSizeClasses(cmin, case['cmax'] * 4, max(1, n // 2))
         pbm.revert()
     elif h in ('recorded', 'recorded-load'):
         pbm.enableRecording()
         pbm.PSD = np.full(pbm.bins, 1e10); pbm.record(1.0)
-        pbm.changeSizeClasses(case['cmin'], case['cmax'] * 3, max(1, (2 * n) // 3))
+        pbm.changeSizeClasses(cmin, case['cmax'] * 3, max(1, (2 * n) // 3))
         pbm.PSD = np.full(pbm.bins, 1e10); pbm.record(2.0)
         if h == 'recorded-load':
             import tempfile, os, io, contextlib
@@ -99,16 +135,17 @@ def build(case):
     else:
         psd = np.ones(n)
     b = pbm.PSDbounds
+    bs = b if b[0] > 0 else np.maximum(b, 0.5 * (b[1] - b[0]))    # grid starting at 0: keep the 1/R growth laws finite
     g = case['gro']
     rc = b[0] + r.uniform(-0.2, 1.2) * (b[-1] - b[0])
     pop = np.nonzero(psd > 0)[0]
     m = int(pop[r.integers(0, len(pop))]) if len(pop) else int(r.integers(0, n))   # a populated class when there is one
     if g == '1/R':
-        flux = 1e-18 * (1 / max(rc, 1e-12) - 1 / b) / b * 1e9
+        flux = 1e-18 * (1 / max(rc, 1e-12) - 1 / bs) / bs * 1e9
     elif g == '1/R-in-populated':
         # physical law with the critical radius strictly inside class m: growth rate changes sign inside a populated class
         rc = b[m] + r.uniform(0.05, 0.95) * (b[m + 1] - b[m])
-        flux = 1e-18 * (1 / rc - 1 / b) / b * 10 ** r.uniform(7, 11)
+        flux = 1e-18 * (1 / rc - 1 / bs) / bs * 10 ** r.uniform(7, 11)
     elif g == 'split-in-populated':
         # faces up to m shrink, faces above m grow: class m drains through both faces
         flux = np.where(np.arange(n + 1) <= m, -1.0, 1.0) * 10 ** r.uniform(-14, -8, n + 1)
@@ -131,7 +168,16 @@ def build(case):
     elif nu == 'on-boundary':
         nucRad = float(b[r.integers(0, n)])   # a lower boundary, incl. b[0]; never the last one
     elif nu == 'below':
-        nucRad = b[0] * r.uniform(0.1, 0.999)
+        u = r.uniform(0.1, 0.999)
+        nucRad = b[0] * u if b[0] > 0 else -b[1] * u
+    elif nu == 'boundary':
+        pos = case.get('nucpos', 'first')
+        j = 0 if (pos == 'first' or (pos == 'interior' and n < 2)) else n if pos == 'last' else int(r.integers(1, n))
+        off = case.get('nucoff', 'exact')
+        nucRad = float(b[j]) if off == 'exact' else float(np.nextafter(b[j], -np.inf if off == 'ulp-below' else np.inf))
+    elif nu == 'special':
+        sp = case.get('nucspecial', 'zero')
+        nucRad = {'zero': 0.0, 'negative': -float(b[1]) * r.uniform(0.01, 10), 'inf': float('inf'), '-inf': -float('inf')}[sp]
     else:
         nucRad = b[-1] * r.uniform(1.0, 3.0)
     return pbm, psd.astype(float), flux.astype(float), float(nucRate), float(nucRad)
@@ -187,7 +233,79 @@ def containing_class(b, r):
     return None
 
 
-def corr(ctx, ncases=None, oracle_only=False, grain=True):
+def nuc_position(b, r):
+    """(first|interior|last, exact|ulp-below|ulp-above, j) when the radius is a class boundary b[j] or its floating-point
+    neighbour, else None"""
+    b = np.asarray(b, dtype=float); n = len(b) - 1
+    for off, arr in (('exact', b), ('ulp-below', np.nextafter(b, -np.inf)), ('ulp-above', np.nextafter(b, np.inf))):
+        hit = np.nonzero(arr == r)[0]
+        if len(hit):
+            j = int(hit[0])
+            return ('first' if j == 0 else 'last' if j == n else 'interior'), off, j
+    return None
+
+
+def expected_class(b, r):
+    """the class [b_k, b_{k+1}) that contains the radius: LOWER boundary included, upper excluded -- the convention of the
+    unchanged getdXdtEuler (`np.argmax(PSDbounds > nucRadius) - 1`: first boundary STRICTLY above the radius, minus one), so
+    a radius exactly on an interior boundary b_k belongs to class k, the class ABOVE the boundary.  A radius below the first
+    boundary has no containing class: the nearest, class 0 (never the last class); a radius at/above the last boundary:
+    the last class."""
+    n = len(b) - 1
+    if r < b[0]:
+        return 0, 'below'
+    if r >= b[n]:
+        return n - 1, 'above'
+    return containing_class(b, r), 'inside'
+
+
+def nuc_oracle(res, desc, b, r, nucRate, exact, withg, without, fn):
+    """nuclei enter exactly the class that contains the radius -- evaluated on the implementation's own outputs for the
+    function `fn` ('getdXdt' = getdXdtEuler, 'corrected' = correctdXdtEuler, the rate every solver step applies):
+    `exact` = rate with a zero growth field (only the nucleation term is left), `withg` / `without` = rate with the case's
+    growth field with / without the nucleation term.  Returns the list of receiving classes."""
+    n = len(b) - 1
+    exact = np.asarray(exact, dtype=float)
+    recv = np.nonzero(exact)[0].tolist()
+    want, region = expected_class(b, r)
+    pb = nuc_position(b, r)
+    sfx = '' if fn == 'getdXdt' else ':corrected'
+    where = 'class %s' % (recv,) if recv else 'no class'
+    if pb is not None:
+        res.count('nuc-at-boundary:%s:%s:%s' % (pb[0], pb[1], fn))
+        key = 'nucleation-class-at-boundary:%s:%s:%s' % (pb[0], pb[1], fn)
+        what = ('%sEuler: nucleation radius %r = %s boundary b[%d] = %r (%s): nuclei entered %s of %d, the class that contains the radius '
+                '(lower boundary included, upper excluded; at/below the first boundary: class 0, at/above the last: last class) is %d'
+                % (fn if fn == 'getdXdt' else 'correctdXdt', r, pb[0], pb[2], float(b[pb[2]]), pb[1], where, n, want))
+        bad = recv != [want]
+    elif region == 'inside':
+        key = 'nucleation-class' + sfx
+        what = 'nuclei did not enter exactly the class containing the radius'
+        bad = recv != [want]
+    elif region == 'below':
+        key = 'nuc-below-grid-enters-class-%s%s' % ('last' if recv == [n - 1] else 'other', sfx)
+        what = 'radius below the grid: nuclei entered class %s of %d (no class contains the radius; the nearest is 0)' % (recv, n)
+        bad = recv != [want] and recv != []
+    else:
+        key = 'nuc-above-grid' + sfx
+        what = 'radius above the grid: nuclei entered class %s, nearest is the last' % recv
+        bad = recv != [want] and recv != []
+    if bad:
+        res.violate(key, what, desc, recv, [want])
+    elif recv == [want] and exact[want] != nucRate:
+        res.violate('nucleation-amount' + sfx, 'class %d received %r instead of the nucleation rate' % (want, float(exact[want])), desc, float(exact[want]), nucRate)
+    # the same with the growth field present: the nucleation term = rate with - rate without nucleation (identical face
+    # fluxes in both calls, so the difference is exactly 0 in every class that receives no nuclei)
+    diff = np.asarray(withg, dtype=float) - np.asarray(without, dtype=float)
+    nz = np.nonzero(diff)[0].tolist()
+    others = [i for i in nz if i != want]
+    absorbed = want not in nz and abs(nucRate) >= 1e-3 * abs(float(without[want]))
+    if not bad and (others or (absorbed and recv != [])):
+        res.violate(key, what + ' [growth field present: classes whose rate changes with the nucleation term: %s]' % nz, desc, nz, [want])
+    return recv
+
+
+def corr(ctx, ncases=None, oracle_only=False, grain=True, sweep=True):
     res = Result()
     res.rule = ('random PBM grids (1-400 classes) x distribution kind x growth-field kind (incl. sign change of the growth rate inside a populated class) '
                 'x nucleation radius position x dt (multiples of the step limit, and multiples of the time in which a two-sided class empties: third pass active); '
@@ -195,8 +313,8 @@ def corr(ctx, ncases=None, oracle_only=False, grain=True):
     N = ncases or ctx.n(1500, 40000)
     cases, impl, lines, extra = [], [], [], []
     holder = {}
-    def one_case():
-            c = gen_case(ctx.rng); holder['case'] = c
+    def one_case(forced=None):
+            c = forced if forced is not None else gen_case(ctx.rng); holder['case'] = c
             L = []
             pbm, psd, flux, nucRate, nucRad = build(c)
             n = c['n']; b = pbm.PSDbounds.copy()
@@ -222,7 +340,14 @@ def corr(ctx, ncases=None, oracle_only=False, grain=True):
             pbm.getdXdtEuler(flux, nucRate, nucRad, psd)
             dc = pbm.correctdXdtEuler(dt, flux, nucRate, nucRad, psd)
             nfc = pbm._netFlux.copy()
-            argmod = not (np.array_equal(psd, psd0) and np.array_equal(flux, flux0))
+            # the nucleation term of BOTH functions: same growth field without nucleation, and zero growth field with nucleation
+            zero = np.zeros(n + 1)
+            nx = dict(d0=pbm.getdXdtEuler(flux, 0.0, nucRad, psd))
+            pbm.getdXdtEuler(flux, 0.0, nucRad, psd)
+            nx['dc0'] = pbm.correctdXdtEuler(dt, flux, 0.0, nucRad, psd)
+            pbm.getdXdtEuler(zero, nucRate, nucRad, psd)
+            nx['dc_nuconly'] = pbm.correctdXdtEuler(dt, zero, nucRate, nucRad, psd)
+            argmod = not (np.array_equal(psd, psd0) and np.array_equal(flux, flux0) and not zero.any())
             L.append('pbm.dxdt %s %s %s %s %s' % (enc_list(b), enc_list(flux), enc_list(psd), f2b(nucRate), f2b(nucRad)))
             L.append('pbm.correct %s %s %s %s %s %s' % (enc_list(b), enc_list(flux), enc_list(psd), f2b(nucRate), f2b(nucRad), f2b(dt)))
             L.append('pbm.getdt %s %s %s %d %s %s' % (enc_list(b), enc_list(flux), enc_list(psd), dissIdx, f2b(currDT), f2b(c['ratio'])))
@@ -231,24 +356,35 @@ def corr(ctx, ncases=None, oracle_only=False, grain=True):
             pbm.PSD = psd.copy()
             dI = int(pbm.getDissolutionIndex(c['maxdiss'] if c['maxdiss'] > 0 else 1e-3, minIdx))
             L.append('pbm.dissidx %s %s %s %d' % (enc_list(psd), enc_list(pbm.PSDsize), f2b(c['maxdiss'] if c['maxdiss'] > 0 else 1e-3), minIdx))
+            L.append('pbm.nucidx %s %s' % (enc_list(b), f2b(nucRad)))
             # all implementation calls of this case succeeded: register it atomically
             cases.append((c, b, psd, flux, nucRate, nucRad, dissIdx, dt, currDT))
-            impl.append((d, nf, d_nuconly, dtlim, dc, nfc, argmod))
+            impl.append((d, nf, d_nuconly, dtlim, dc, nfc, argmod, nx))
             extra.append((minIdx, dI, pbm.PSDsize.copy()))
             lines.extend(L)
 
-    for _ in range(N):
+    # systematic boundary-exact nucleation radii on top of the random cases (all 9 + 4 radii on each of a few grids)
+    sweep = boundary_sweep(ctx.rng, ctx.n(12, 120) if ncases is None else max(12, ncases // 100)) if sweep else []
+    for forced in [None] * N + sweep:
         holder.clear()
-        ok, _ = vlib.guarded(res, 'pbm-transport', holder, one_case)
+        ok, _ = vlib.guarded(res, 'pbm-transport', holder, one_case, forced)
         if not ok and res.violations and res.violations[-1]['key'].startswith('raises:'):
             res.violations[-1]['case'] = dict(holder.get('case', {}))
     model = vlib.run_driver(PROP, lines) if (ctx.driver_ok and not oracle_only) else None
 
-    for k, ((c, b, psd, flux, nucRate, nucRad, dissIdx, dt, currDT), (d, nf, d_nuconly, dtlim, dc, nfc, argmod)) in enumerate(zip(cases, impl)):
+    NL = 5      # driver lines per case
+    for k, ((c, b, psd, flux, nucRate, nucRad, dissIdx, dt, currDT), (d, nf, d_nuconly, dtlim, dc, nfc, argmod, nx)) in enumerate(zip(cases, impl)):
         n = c['n']
         nontriv = psd.max() > 0 and np.abs(flux).max() > 0
-        res.case((c['dist'], c['gro'], c['nuc'], c['hist'], n, c['s']), nontriv)
-        res.count('dist:' + c['dist']); res.count('growth:' + c['gro']); res.count('nuc:' + c['nuc']); res.count('grid-history:' + c['hist'])
+        nuclabel = c['nuc'] + (':%s:%s' % (c['nucpos'], c['nucoff']) if c['nuc'] == 'boundary' else ':' + c['nucspecial'] if c['nuc'] == 'special' else '')
+        res.case((c['dist'], c['gro'], nuclabel, c['hist'], n, c['s']), nontriv)
+        res.count('dist:' + c['dist']); res.count('growth:' + c['gro']); res.count('nuc:' + nuclabel); res.count('grid-history:' + c['hist'])
+        if 'hist_requested' in c:
+            res.count('grid-history:' + c['hist_requested'])
+        if b[0] == 0:
+            res.count('grid-starts-at-0')
+            if nucRad == 0 and nucRate != 0:
+                res.count('grid-starts-at-0:Rnuc=0')
         res.count('n<=3' if n <= 3 else 'n<=80' if n <= 80 else 'n>80')
         desc = dict(c, bounds=[float(b[0]), float(b[-1])], nucRate=nucRate, nucRadius=nucRad, dt=dt, dissIdx=dissIdx)
         if k < 2:
@@ -256,7 +392,7 @@ def corr(ctx, ncases=None, oracle_only=False, grain=True):
         scale = float(np.abs(nf).max()) + abs(nucRate)
         # ---------------- correspondence
         if model is not None:
-            t = Toks(model[4 * k])
+            t = Toks(model[NL * k])
             if not t.ok:
                 res.disagree('pbm.dxdt model error ' + str(t.err), desc, 'ok', t.err)
             else:
@@ -268,26 +404,40 @@ def corr(ctx, ncases=None, oracle_only=False, grain=True):
                     res.disagree('netFlux', desc, nf.tolist(), mnf)
                 if not vlib.all_close(d, md, 1e-9, scale * 1e-3):
                     res.disagree('dXdt', desc, np.asarray(d).tolist(), md)
-            t = Toks(model[4 * k + 1])
+            t = Toks(model[NL * k + 1])
             if not t.ok:
                 res.disagree('pbm.correct model error', desc, 'ok', t.err)
             else:
-                t.nat(); mnfc = t.flts(); mdc = t.flts()
+                mkc = t.nat(); mnfc = t.flts(); mdc = t.flts()
+                recvc = np.nonzero(np.asarray(nx['dc_nuconly']))[0].tolist() if nucRate != 0 else None
+                if recvc is not None and recvc != [mkc]:
+                    res.disagree('nucleation class index (correctdXdtEuler)', desc, recvc, mkc)
                 if not vlib.all_close(nfc, mnfc, 1e-9, 1e-300):
                     res.disagree('corrected netFlux', desc, nfc.tolist(), mnfc)
                 if not vlib.all_close(dc, mdc, 1e-9, scale * 1e-3):
                     res.disagree('corrected dXdt', desc, np.asarray(dc).tolist(), mdc)
-            t = Toks(model[4 * k + 2])
+            t = Toks(model[NL * k + 2])
             if not t.ok or not close(dtlim, t.flt(), 1e-12):
-                res.disagree('getDTEuler', desc, dtlim, model[4 * k + 2])
-            t = Toks(model[4 * k + 3]); minIdx, dI, size = extra[k]
+                res.disagree('getDTEuler', desc, dtlim, model[NL * k + 2])
+            t = Toks(model[NL * k + 3]); minIdx, dI, size = extra[k]
             md = c['maxdiss'] if c['maxdiss'] > 0 else 1e-3
             cum = np.cumsum(psd * size ** 3); tot = float(np.sum(psd * size ** 3))
             tie = tot > 0 and np.any(np.abs(cum - md * tot) <= 1e-9 * tot)
             if tie:
                 res.near_tie_skipped += 1
             elif not t.ok or t.nat() != dI:
-                res.disagree('getDissolutionIndex', desc, dI, model[4 * k + 3])
+                res.disagree('getDissolutionIndex', desc, dI, model[NL * k + 3])
+            # the code's index (KawinV.PBM.nucIndex) and the class scan (nucIdx) against BOTH implementation functions
+            t = Toks(model[NL * k + 4])
+            if not t.ok:
+                res.disagree('pbm.nucidx model error ' + str(t.err), desc, 'ok', t.err)
+            elif nucRate != 0:
+                mi, ms = t.nat(), t.nat()
+                rg = np.nonzero(np.asarray(d_nuconly))[0].tolist(); rc_ = np.nonzero(np.asarray(nx['dc_nuconly']))[0].tolist()
+                if rg != [mi] or rc_ != [mi]:
+                    res.disagree('nucIndex (argmax - 1, wrap, guard) vs getdXdtEuler / correctdXdtEuler', desc, [rg, rc_], mi)
+                if rg != [ms] or rc_ != [ms]:
+                    res.disagree('nucIdx (class scan) vs getdXdtEuler / correctdXdtEuler', desc, [rg, rc_], ms)
         # ---------------- direct oracle (independent scalar reference)
         minIdx, dI, size = extra[k]
         md = c['maxdiss'] if c['maxdiss'] > 0 else 1e-3
@@ -318,22 +468,17 @@ def corr(ctx, ncases=None, oracle_only=False, grain=True):
             res.violate('budget-corrected', 'sum corrected dXdt != corrected end fluxes + nucRate', desc, totc, needc)
         if rnf[0] > 0 or rnf[n] < 0 or nf[0] > 0 or nf[n] < 0 or nfc[0] > 0 or nfc[n] < 0:
             res.violate('ends-one-sided', 'particles enter through an end of the grid', desc, [float(nf[0]), float(nf[n])])
-        # nucleation class
+        # nucleation class: getdXdtEuler AND correctdXdtEuler (the rate every solver step applies), and their agreement
         if nucRate != 0:
-            recv = np.nonzero(np.asarray(d_nuconly))[0].tolist()
-            want = containing_class(b, nucRad)
-            if want is not None:
-                if recv != [want]:
-                    res.violate('nucleation-class', 'nuclei did not enter exactly the class containing the radius', desc, recv, [want])
-            elif nucRad < b[0]:
-                res.count('nuc-outside-below')
-                if recv != [0] and recv != []:
-                    res.violate('nuc-below-grid-enters-class-%s' % ('last' if recv == [n - 1] else 'other'),
-                                'radius below the grid: nuclei entered class %s of %d (no class contains the radius; the nearest is 0)' % (recv, n), desc, recv, [0])
-            else:
-                res.count('nuc-outside-above')
-                if recv != [n - 1] and recv != []:
-                    res.violate('nuc-above-grid', 'radius above the grid: nuclei entered class %s, nearest is the last' % recv, desc, recv, [n - 1])
+            want, region = expected_class(b, nucRad)
+            res.count('nuc-outside-below' if region == 'below' else 'nuc-outside-above' if region == 'above' else 'nuc-inside')
+            recv_g = nuc_oracle(res, desc, b, nucRad, nucRate, d_nuconly, d, nx['d0'], 'getdXdt')
+            recv_c = nuc_oracle(res, desc, b, nucRad, nucRate, nx['dc_nuconly'], dc, nx['dc0'], 'corrected')
+            if recv_g != recv_c:
+                pb = nuc_position(b, nucRad)
+                res.violate('nucleation-class-getdXdt-vs-corrected' + (':%s:%s' % pb[:2] if pb else ''),
+                            'getdXdtEuler put the nuclei (radius %r) into class %s, correctdXdtEuler into class %s of %d' % (nucRad, recv_g, recv_c, n),
+                            desc, recv_c, recv_g)
         # corrected fluxes: scalar reference of the three passes, and what the passes must achieve
         rcf, rface, active = ref_corrected(rnf, [float(v) for v in psd], dt)
         signchange = any(flux[i] < 0 and flux[i + 1] > 0 and psd[i] > 0 for i in range(n))
@@ -815,8 +960,8 @@ def replay(ctx, entry):
         for v in r.violations:
             print('  ', v['key'], v['what'], v['observed'], v['required'])
         return not r.violations
-    case = {k: c[k] for k in ('n', 'cmin', 'cmax', 'dist', 'gro', 'nuc', 's', 'dtmul', 'ratio', 'maxdiss')}
-    for k, dflt in (('hist', 'fresh'), ('dtkind', 'limit'), ('dmult', 1.0)):
+    case = {k: c[k] for k in GEN_KEYS if k in c}
+    for k, dflt in (('hist', 'fresh'), ('dtkind', 'limit'), ('dmult', 1.0), ('nucpos', 'first'), ('nucoff', 'exact'), ('nucspecial', 'zero'), ('cmin0', False)):
         case[k] = c.get(k, dflt)
     case['n'] = c.get('n0', c['n'])
     class R:  # replays exactly this case
@@ -826,7 +971,7 @@ def replay(ctx, entry):
     try:
         globals()['gen_case'] = lambda rng: case
         ctx.driver_ok = False
-        r = corr(ctx, ncases=1, oracle_only=True, grain=False)
+        r = corr(ctx, ncases=1, oracle_only=True, grain=False, sweep=False)
     finally:
         globals()['gen_case'] = saved
     for v in r.violations:
